@@ -17,7 +17,12 @@
               Validate  {o, res}       validate_zipfile(o) returned ("accept") / raised ZipBomb ("reject")
               Read      {o}            a member of o is opened for decompression
               VzbEnter  {pos} / VzbExit {pos}    tell() of the caller's stream on entry / exit
-              The monitor is ZipGuard!MayRead on ZipGuard's protocol variables.               *)
+              The monitor is ZipGuard!MayRead on ZipGuard's protocol variables: a Read is enabled only
+              on an object of the archive extractor, on a Validated object, or on an Open object whose
+              bytes were accepted before (openpyxl after validate_zip_bytesio).  A ZipFile constructed
+              anywhere else (site "foreign": an extractor calling zipfile.ZipFile itself) is not an error
+              by itself -- the statement only demands validation before decompression -- but every
+              member read on it without a preceding accepting Validate is.                      *)
 EXTENDS ZipGuardBig, Json, IOUtils, TLCExt
 
 Traces == JsonDeserialize(IOEnv.TRACE_FILE)
